@@ -773,7 +773,8 @@ def sig_shared_record_qualifiers_of_origin_features(sub, spec, clause, detail) -
     return bool(changes) and all(change["what"] == "qualifier" and change["feature_crosses_origin"]
                                  and change["key"] in ("core_location", "leader_location", "tail_location",
                                                        "protocluster_number", "candidate_cluster_number",
-                                                       "protoclusters", "subregion_number")
+                                                       "protoclusters", "subregion_number",
+                                                       "candidate_cluster_numbers", "subregion_numbers")
                                  for change in changes)
 
 
@@ -1048,6 +1049,7 @@ def family_cases():
 
 
 def run(ctx) -> None:
-    ctx.enum("family_enum", family_cases, shards=ctx.pick(4, 16))
-    ctx.hyp("files", record_specs(), max_examples=ctx.pick(200, 2400), shards=ctx.pick(4, 16))
-    ctx.hyp("beyond_known", record_specs(), max_examples=ctx.pick(500, 8000), shards=ctx.pick(4, 16))
+    # a deterministic family, not a complete enumeration of anything
+    ctx.enum("family_enum", family_cases, shards=ctx.pick(4, 16), exhaustive=False)
+    ctx.hyp("files", record_specs(), max_examples=ctx.pick(200, 3200), shards=ctx.pick(4, 16))
+    ctx.hyp("beyond_known", record_specs(), max_examples=ctx.pick(500, 14000), shards=ctx.pick(4, 16))
